@@ -207,7 +207,7 @@ func raceSignature(report string) string {
 			if pickFn == "" {
 				pickFn, pickLoc = fn, file
 			}
-			if strings.Contains(file, "/src/runtime/") || strings.Contains(file, "/src/sync/") || strings.Contains(file, "/src/internal/") || strings.Contains(file, "/go-1.") || strings.Contains(file, "/veriftools/go") {
+			if strings.HasPrefix(file, "<autogenerated>") || strings.HasPrefix(fn, "runtime.") || strings.Contains(file, "/src/runtime/") || strings.Contains(file, "/src/sync/") || strings.Contains(file, "/src/internal/") || strings.Contains(file, "/go-1.") || strings.Contains(file, "/veriftools/go") {
 				continue
 			}
 			pickFn, pickLoc = fn, file
